@@ -413,6 +413,7 @@ def run(ctx, rep):
                       "TensorEncoder vs TensorDecoder; save_full_state records carry id and a non-parameter type")
     rep.rule('C17.F', "what a reader hands to a nested load_state_dict derives from the saved state only, never from the current object's own state_dict()")
     rep.rule('C17.S', "a reader restores into the objects the constructor injected (parameters, models, integrators, adaptors); it never re-binds such an attribute")
+    rep.rule('C17.I', "the iteration counter restored from a checkpoint is the next iteration to run")
     rep.rule('C17.P', "the checkpoint of an iteration is written after every state change of that iteration")
     rep.rule('C17.R', "a helper rebuilt through its constructor in a reader receives each saved value in a parameter the constructor stores unchanged")
     rep.rule('C17.J', "state of a torch optimiser (integer keys) is not passed through JSON and back into load_state_dict without re-keying")
@@ -436,6 +437,7 @@ def run(ctx, rep):
     check_checkpoint_position(ctx, rep)
     check_constructor_restores(ctx, rep, concrete)
     check_main_order(ctx, rep)
+    check_iteration_counter(ctx, rep)
 
 
 # ---------------------------------------------------------------------------
@@ -557,6 +559,61 @@ def check_main_order(ctx, rep):
     rep.check('C17.E', 'main::plates-expanded-before-saved-tensors-are-injected', ok, where(m, upd[0].stmt), None,
               "main() calls update_parameters before expand_plates / remove_comments: parameters declared inside a plate still carry their template ids, so the saved "
               "tensors are not found and the run restarts those parameters from their initial values")
+
+
+def _offset(e, base_pred):
+    """(k) if e is base + k / base - k / base, else None"""
+    if base_pred(e):
+        return 0
+    if isinstance(e, ast.BinOp) and isinstance(e.op, (ast.Add, ast.Sub)) and isinstance(e.right, ast.Constant) and isinstance(e.right.value, int) and base_pred(e.left):
+        return e.right.value if isinstance(e.op, ast.Add) else -e.right.value
+    if isinstance(e, ast.BinOp) and isinstance(e.op, ast.Add) and isinstance(e.left, ast.Constant) and isinstance(e.left.value, int) and base_pred(e.right):
+        return e.left.value
+    return None
+
+
+def check_iteration_counter(ctx, rep):
+    """C17.I — the counter restored from a checkpoint is the next iteration to run: (value written relative to the counter) + (value restored relative to the saved one)
+    must make up for whether the checkpoint is written before or after the counter is incremented"""
+    for qual, loops in (('torchtree.optim.optimizer.Optimizer', ('_run', '_run_closure')), ('torchtree.inference.mcmc.mcmc.MCMC', ('run',))):
+        cls = ctx.classes.get(qual)
+        wk = None
+        for wname in ('state_dict', '_state_dict'):
+            r = cls.resolve(wname)
+            if r is None:
+                continue
+            for d in ast.walk(r[1]):
+                if isinstance(d, ast.Dict):
+                    for k, v in zip(d.keys, d.values):
+                        if isinstance(k, ast.Constant) and k.value == 'iteration':
+                            wk = _offset(v, lambda x: self_attr(x) == '_epoch')
+        rk = None
+        for rname in ('load_state_dict', '_load_state_dict'):
+            r = cls.resolve(rname)
+            if r is None:
+                continue
+            for st in ast.walk(r[1]):
+                if isinstance(st, ast.Assign) and any(self_attr(t) == '_epoch' for t in st.targets):
+                    rk = _offset(st.value, lambda x: isinstance(x, ast.Subscript) and isinstance(x.slice, ast.Constant) and x.slice.value == 'iteration')
+        if wk is None or rk is None:
+            rep.undecided('C17.I', f"{cls.name}::iteration-counter", where(cls.module, cls.node), 'writer / reader of the iteration counter not recognised')
+            continue
+        for lname in loops:
+            r = cls.resolve(lname)
+            if r is None:
+                continue
+            for loop in [x for x in ast.walk(r[1]) if isinstance(x, (ast.While, ast.For))]:
+                body = loop.body
+                si = [i for i, st in enumerate(body) if any(isinstance(c, ast.Call) and _calls_save(ctx, cls, c) for c in ast.walk(st))]
+                ii = [i for i, st in enumerate(body) if isinstance(st, ast.AugAssign) and self_attr(st.target) == '_epoch']
+                if not si or not ii:
+                    continue
+                before = si[-1] < ii[0]
+                need = 1 if before else 0
+                rep.check('C17.I', f"{cls.name}.{lname}::resumes-with-the-next-iteration", wk + rk == need, where(cls.module, body[si[-1]]),
+                          {'written_offset': wk, 'restored_offset': rk, 'checkpoint_before_increment': before},
+                          f"{cls.name}.{lname} writes the checkpoint {'before' if before else 'after'} the counter is incremented, stores counter{wk:+d} and restores saved{rk:+d}: the resumed run "
+                          f"starts at iteration K{wk + rk - need + 1:+d} after a checkpoint written at the end of iteration K (it {'repeats' if wk + rk < need else 'skips'} an iteration)")
 
 
 def top_writer(cls):
